@@ -28,6 +28,9 @@ RULE = (
     "counts required"
     ' Part namelimit: 26 record text forms with a relative name of 253..257 octets (relative part + origin) under an origin.'
 )
+RULE += (
+    " Round 9 added: odd hex/base64 chunk sizes; the generic form printed under the generated style and through chunksize=."
+)
 ASSUMPTIONS = [
     "well-formed value = one the type's presentation grammar can spell distinctly (grammar flag "
     "'text-lossy' marks the others: empty blobs where >=1 token is required, trailing zero octets "
